@@ -148,17 +148,53 @@ class Check:
         return [o for o in self.obligations if not o["ok"]]
 
     # ---- build / prove ----
+    def needed_tables(self):
+        """generated tables the property's theorem file transitively imports (coq/props/Cnn.v through
+        coq/proofs and coq/model).  A generator failure is an alarm only for the properties that need
+        its table; the others go on with the previous copy of that table."""
+        import glob
+        files = {}
+        for d in ("gen", "model", "proofs", "props"):
+            for f in glob.glob(os.path.join(COQ, d, "*.v")):
+                files[os.path.basename(f)[:-2]] = f
+        known = {"SevTable", "OpTable", "AnalysisTable", "MLTable", "ConstTable", "ReportTable", "PolyTable",
+                 "LoaderPaths", "CallGraph"}
+        seen, todo = set(), [self.pid]
+        while todo:
+            n = todo.pop()
+            if n in seen:
+                continue
+            seen.add(n)
+            if n not in files:
+                continue
+            for m in re.finditer(r"From Verif Require (?:Import|Export)\s+([^.]*)\.", open(files[n]).read(), re.S):
+                todo += m.group(1).split()
+        need = seen & known
+        return need or (known - {"CallGraph"})
+
     def regen_and_build(self, targets=()):
         """Regenerate coq/gen from /repo, build the model + driver and the given proof targets.
         Records one obligation per step.  Returns True if everything built."""
         with Lock():
             rc, out = run(["make", "-s", "gen"], timeout=600)
-            ok = self.oblige("tables regenerated from /repo (gen/gen_tables.py, gen/gen_callgraph.py)",
-                             rc == 0, out)
             try:
                 self.table_digests = json.load(open(os.path.join(BUILD, "gen.json")))
             except Exception:
                 self.table_digests = {}
+            try:
+                cg = json.load(open(os.path.join(BUILD, "gen_callgraph.json")))
+            except Exception:
+                cg = {"CallGraph": {"error": "gen_callgraph.json unreadable"}}
+            status = dict(self.table_digests)
+            status["CallGraph"] = cg.get("CallGraph", {"error": str(cg)[:300]}) if isinstance(cg, dict) else {}
+            need = self.needed_tables()
+            errs = {t: status.get(t, {}).get("error", "not generated") for t in need
+                    if "digest" not in status.get(t, {})}
+            other = sorted(t for t, v in status.items() if isinstance(v, dict) and "error" in v and t not in need)
+            if other:
+                self.stats["generator errors in tables this property does not use"] = other
+            ok = self.oblige("tables regenerated from /repo (gen/gen_tables.py, gen/gen_callgraph.py): "
+                             + ", ".join(sorted(need)), rc == 0 and not errs, json.dumps(errs) + out[-1500:])
             if not ok:
                 return False
             rc, out = run(["make", "-s", "driver"], timeout=2400)
